@@ -100,6 +100,9 @@ def shards(tier):
             out.append({'block': blk, 'part': 'close', 'lo': 1, 'hi': 254, 'all_e': 0, 'nm': 6})
         for ea in EA_QUICK:
             out.append({'block': 'FPMult_SP', 'part': 'sums', 'ea': ea, 'nm': 6})
+    # operand pairs whose exact product / sum lies next to a binade boundary (normalisation switch, rounding carry)
+    for blk in ('FPMult_SP', 'FPAdder_SP'):
+        out.append({'block': blk, 'part': 'boundary', 'nm': 11})
     out.append({'block': 'InttoFP_SP', 'part': 'pow2'})
     for half in ('hi16', 'lo16'):
         for c in range(8):
@@ -118,6 +121,8 @@ def cost(d):
         return _US[d['block']] * 81 * 36 * 4
     if d['part'] == 'sums':
         return _US[d['block']] * 18 * 36 * 4
+    if d['part'] == 'boundary':
+        return _US[d['block']] * 20000
     if d['part'] == 'close':
         return _US[d['block']] * (d['hi'] - d['lo'] + 1) * 11 * 5 * 3 * 4 * 2
     return 50 * 8192
@@ -230,7 +235,46 @@ def binary_pairs(d):
         return gen2()
     if d['part'] == 'close':
         return close_pairs(d)
+    if d['part'] == 'boundary':
+        return boundary_pairs(d)
     raise ValueError(d)
+
+
+def boundary_pairs(d):
+    """pairs whose exact result sits within a few units of a power of two of the significand arithmetic:
+    multiplier: sa*sb next to 2**47 and 2**48 (24-bit significands); adder: sa + (sb >> g) next to 2**24 for
+    exponent gaps g = 0..3, and sa - sb next to 2**23 / small differences are covered by the 'close' part."""
+    H = 1 << 23
+    sigs = sorted({H | m for m in M_FULL} | {H + 3, H + 5, (1 << 24) - 3, 0xB504F3, 0xB504F4, 0xC00000, 0xAAAAAB})
+    seen = set()
+
+    def emit(sx, ex, sy, ey):
+        for sa_, sb_ in ((0, 0), (0, 1), (1, 0), (1, 1)):
+            x, y = fp.encode(sa_, ex, sx & (H - 1)), fp.encode(sb_, ey, sy & (H - 1))
+            k = (min(x, y), max(x, y))
+            if k not in seen:
+                seen.add(k)
+                yield k
+    if d['block'] == 'FPMult_SP':
+        exps = [(127, 127), (100, 150), (2, 127), (126, 128), (60, 70)]
+        for sa in sigs:
+            for target in ((1 << 47), (1 << 48)):
+                base = (target - 1) // sa
+                for dlt in range(-3, 4):
+                    sb = base + dlt
+                    if H <= sb < 2 * H:
+                        for ex, ey in exps:
+                            yield from emit(sa, ex, sb, ey)
+    else:
+        for sa in sigs:
+            for g in range(0, 4):
+                base = ((1 << 24) - sa) << g
+                for dlt in range(-3, 4):
+                    sb = base + dlt
+                    if H <= sb < 2 * H:
+                        for e in (2, 127, 200, 253):
+                            if e - g >= 1:
+                                yield from emit(sa, e, sb, e - g)
 
 
 # ------------------------------------------------------------------ building the blocks
